@@ -42,6 +42,19 @@ def gen(spec, lv):
     kind = spec[0]
     L = ["name c05", "version 1.0", ""]
     pre = []
+    if kind == "redeclare":
+        # declare, index, declare again (other contents / other type / other size), index again
+        _, dt1, dt2, n2 = spec
+        L.append("%s array A =" % dt1)
+        L.append("    " + ", ".join(elem(lv, dt1) for _ in range(2)))
+        L.append("Dgate(A[0], A[1]) | 0")
+        L.append("%s x = %s" % (dt1, elem(lv, dt1)))
+        L.append("%s array A =" % dt2)
+        L.append("    " + ", ".join(elem(lv, dt2) for _ in range(n2)))
+        L.append("Sgate(A[%d], A[0], x) | 1" % (n2 - 1))
+        L.append("%s x = A[1]" % dt2)
+        L.append("Rgate(x) | 2")
+        return {"text": "\n".join(L) + "\n", "pre": pre}
     if kind == "scalar":
         _, vt, init = spec
         if init == "var":
@@ -124,10 +137,12 @@ def gen_specs(tier, seed):
                     specs.append(("array", dtype, rl, "none", tuple(params), "none"))
                     if len(set(rl)) == 1 and tier == "thorough":
                         specs.append(("array", dtype, rl, "sym", tuple(params), "none"))
+    for dt1, dt2, n2 in (("float", "float", 2), ("int", "float", 3), ("float", "complex", 2), ("int", "int", 4)):
+        specs.append(("redeclare", dt1, dt2, n2))
     # literals written narrower than the declared element type (with and without parameters among the elements)
     extra = []
     for sp in specs:
-        if sp[0] == "array" and sp[1] in ("float", "complex") and len(set(sp[2])) == 1 and sp[3] in ("none", "exact") and sum(sp[2]) >= 2:
+        if sp[0] == "array" and len(sp) == 6 and sp[1] in ("float", "complex") and len(set(sp[2])) == 1 and sp[3] in ("none", "exact") and sum(sp[2]) >= 2:
             extra.append(sp + ("narrow",))
     return specs + extra
 
